@@ -234,6 +234,8 @@ fn tables(f: &Field) -> bool {
 }
 
 fn rand_data(rng: &mut Rng, k: usize, sb: usize) -> Vec<Vec<u8>> { (0..k).map(|_| rng.bytes(sb)).collect() }
+/// like rand_data, but about every sixth shard is all zero (exercises code that treats zero shards specially)
+fn rand_data_z(rng: &mut Rng, k: usize, sb: usize) -> Vec<Vec<u8>> { (0..k).map(|_| if rng.below(6) == 0 { vec![0u8; sb] } else { rng.bytes(sb) }).collect() }
 
 fn roundtrip(s: usize) -> bool {
     let mut rng = Rng::new(seed()); let mut n = 0u64;
@@ -463,6 +465,19 @@ fn oneshot(n: usize) -> bool {
             cnt += 1;
         } }
     }
+    // extreme counts: the one-shot functions must answer like the streaming constructors (Err, never a panic or an abort)
+    {
+        let a = rng.bytes(64); let b = rng.bytes(64);
+        for &(k, r) in &[(usize::MAX, 1usize), (1usize, usize::MAX), (usize::MAX, usize::MAX), (1usize << 61, 1), (1, 1usize << 61), (0, 1), (1, 0), (65536, 1), (1, 65536), (65536, 65536), (40000, 40000), (65535, 2), (2, 65535)] {
+            let o = vec![(0usize, a.clone())]; let rc = vec![(0usize, b.clone())];
+            let want = stream_dec(k, r, &o, &rc).map(|m| m.len()); let got = oneshot_dec(&mut rng, false, k, r, &o, &rc).map(|m| m.len());
+            if got != want { println!("FAIL oneshot decode extreme counts k={} r={} got={:?} want={:?}", k, r, got, want); return false; }
+            let e_in = vec![a.clone()];
+            let want = stream_enc(k, r, &e_in).map(|m| m.len()); let got = oneshot_enc(&mut rng, false, k, r, &e_in).map(|m| m.len());
+            if got != want { println!("FAIL oneshot encode extreme counts k={} r={} got={:?} want={:?}", k, r, got, want); return false; }
+            cnt += 2;
+        }
+    }
     for _ in 0..n {
         let k = rng.below(6); let r = rng.below(6); let sb = [2usize, 4, 64, 66, 3, 0][rng.below(6)];
         let inexact = rng.below(2) == 0;
@@ -486,6 +501,15 @@ fn oneshot(n: usize) -> bool {
         let got = oneshot_dec(&mut rng, inexact, k, r, &o, &rc);
         if got != want { println!("FAIL oneshot decode{} k={} r={} originals={:?} recovery={:?} got={:?} want={:?}", if inexact { " (inexact iterators)" } else { "" }, k, r, lens(&o), lens(&rc), got.as_ref().map(|m| m.len()), want.as_ref().map(|m| m.len())); return false; }
         cnt += 1;
+        // a failed one-shot call must not influence the next one (no hidden state between calls): right after a failing
+        // session, a clean session with the same counts and shard size must still agree with the streaming API
+        if want.is_err() && k >= 1 && r >= 1 && !rec.is_empty() {
+            let o2: Vec<(usize, Vec<u8>)> = (1..k).map(|i| (i, data[i].clone())).collect();
+            let rc2: Vec<(usize, Vec<u8>)> = vec![(0, rec[0].clone())];
+            let want2 = stream_dec(k, r, &o2, &rc2); let got2 = oneshot_dec(&mut rng, false, k, r, &o2, &rc2);
+            if got2 != want2 { println!("FAIL oneshot decode after a failed call k={} r={} originals={:?} recovery={:?} got={:?} want={:?}", k, r, lens(&o2), lens(&rc2), got2.as_ref().map(|m| m.len()), want2.as_ref().map(|m| m.len())); return false; }
+            cnt += 1;
+        }
         // encode
         let mut e_in: Vec<Vec<u8>> = data.iter().take(k).cloned().collect();
         match rng.below(5) { 0 => { e_in.pop(); } 1 => { e_in.push(rng.bytes(2)); } 2 if !e_in.is_empty() => { let l = e_in.len() - 1; e_in[l] = rng.bytes(sb + 2); } 3 => { e_in.clear(); } _ => {} }
@@ -689,7 +713,7 @@ struct HOpts { inject: usize, force: bool, abandon: bool, again: bool, top: bool
 /// one encoder round on the reused object; Ok(false): abandoned without encode
 fn enc_round(rng: &mut Rng, log: &mut Vec<String>, obj: &mut Enc, kind: Kind, cfg: Cfg, o: HOpts) -> Result<bool, String> {
     let (k, r, sb) = cfg;
-    let data = rand_data(rng, k, sb);
+    let data = rand_data_z(rng, k, sb);
     let abandon = if o.abandon && rng.below(8) == 0 { Some(rng.below(k + 1)) } else { None };
     let mut inj = 0;
     for i in 0..=k {
@@ -730,7 +754,7 @@ fn check_dec(out: &DecOut, data: &[Vec<u8>], missing: &[usize], what: &str) -> R
 /// one decoder round on the reused object; Ok(false): abandoned without decode
 fn dec_round(rng: &mut Rng, log: &mut Vec<String>, obj: &mut Dec, kind: Kind, cfg: Cfg, o: HOpts) -> Result<bool, String> {
     let (k, r, sb) = cfg;
-    let data = rand_data(rng, k, sb);
+    let data = rand_data_z(rng, k, sb);
     let rec = enc_with(kind_codec(kind), NoSimd::new(), k, r, &data).map_err(|e| format!("reference encode {:?}", e))?;
     // a random sufficient subset in random order, the top indexes likely among it
     let lo = k.saturating_sub(r); let go = match rng.below(6) { 0 => k, 1 => lo, _ => lo + rng.below(k - lo + 1) };
